@@ -3,7 +3,7 @@
 (*     find the five-separator header with fewer than twelve fields: negative control);                    *)
 (* (2) a generator of mutation plans applied by the harness to seed messages.                               *)
 EXTENDS Header
-CONSTANTS Guarded, MaxDepth
+CONSTANTS Guarded, MaxDepth, PlansOnly
 Seps == {<<>>, <<94>>, <<94, 126, 92>>, <<94, 126, 92, 38>>, <<94, 126, 92, 38, 35>>, <<94, 126, 92, 38, 35, 36>>,
          <<94, 94, 92, 38>>, <<94, 126, 92, 38, 38>>}
 Versions == {<<>>, <<50, 46, 53>>, <<50, 46, 55>>, <<50, 46, 56, 46, 50>>, <<57>>, <<50>>}
@@ -19,7 +19,8 @@ Build(p, s, n, v) ==
       RECURSIVE tail(_, _)
       tail(k, acc) == IF k > n THEN acc ELSE tail(k + 1, (acc \o <<f>>) \o (IF k + 2 = 12 THEN v ELSE <<>>))
   IN tail(1, p \o s)
-Init == /\ \E p \in Prefixes, s \in Seps, n \in 0..12, v \in Versions : hdr = Build(p, s, n, v)
+Init == /\ IF PlansOnly THEN hdr = Build(<<77, 83, 72, 124>>, <<94, 126, 92, 38>>, 11, <<50, 46, 53>>)
+           ELSE \E p \in Prefixes, s \in Seps, n \in 0..12, v \in Versions : hdr = Build(p, s, n, v)
         /\ plan = <<>>
 Next == /\ Len(plan) < MaxDepth
         /\ \E o \in Ops, a \in Args : plan' = Append(plan, <<o, a>>)
